@@ -272,6 +272,17 @@ func (g *Gen) stmt1(k, depth int) []*Node {
 	case 10:
 		return []*Node{g.labelled(depth)}
 	case 11:
+		if !g.o.JumpOutOfFinally && (g.fn == nil || g.noReturn) {
+			// known finding C02-nested-jump-completion: no break/continue leaves a plain nested block where completion
+			// values are observable
+			sLoops, sSw, sLabels := g.loops, g.swtch, g.labels
+			g.hidden = append(g.hidden, sLabels...)
+			g.loops, g.swtch, g.labels = 0, 0, nil
+			b := g.block(1+g.r.Intn(3), depth)
+			g.hidden = g.hidden[:len(g.hidden)-len(sLabels)]
+			g.loops, g.swtch, g.labels = sLoops, sSw, sLabels
+			return []*Node{b}
+		}
 		return []*Node{g.block(1+g.r.Intn(3), depth)}
 	case 12:
 		return []*Node{g.throwStmt()}
@@ -414,6 +425,9 @@ func (g *Gen) exprStmt() *Node {
 func (g *Gen) decl() *Node {
 	kind := []string{"var", "let", "const"}[g.pickW(45, 35, 20)]
 	holds := g.pickType(hNum, hNum, hStr, hObj, hArr, hFunc, hAny, hBool)
+	if !g.off(NoClasses) && g.chance(6) {
+		holds = hClass // a class expression (anonymous or named)
+	}
 	v := &Node{K: KVar, S: kind}
 	nd := 1 + g.pickW(80, 20)
 	for i := 0; i < nd; i++ {
@@ -442,6 +456,19 @@ func (g *Gen) decl() *Node {
 			init = g.expr(holds, 3)
 		} else {
 			holds = hAny
+		}
+		if holds == hClass {
+			cn := ""
+			if g.chance(30) {
+				cn = g.pick(fnNames)
+			}
+			init = g.classExpr(cn)
+			b := g.declare(kind, name, hClass)
+			if b.holds == hClass {
+				b.cls = g.lastCls
+			}
+			v.L = append(v.L, &Node{K: KDeclr, A: t, B: init})
+			continue
 		}
 		b := g.declare(kind, name, holds)
 		if init != nil && init.K == KFunc && b.holds == hFunc {
@@ -680,6 +707,12 @@ func (g *Gen) tryStmt(depth int) *Node {
 	n.A = g.block(1+g.r.Intn(3), depth)
 	if form != 1 {
 		g.inTry--
+		if !g.o.DeclsInTryBlock && (g.fn == nil || g.noReturn) {
+			// known finding C02-catch-completion-value: where completion values are observable, no statement without a
+			// value of its own that can throw (a declaration with an initialiser, a class declaration) follows in the
+			// try block's list
+			n.A.L = dropThrowingDecls(n.A.L)
+		}
 	}
 	if g.chance(40) {
 		n.A.L = append(n.A.L, g.throwStmt())
@@ -707,11 +740,64 @@ func (g *Gen) tryStmt(depth int) *Node {
 			l = append([]*Node{Log(Id(n.B.S))}, l...)
 		}
 		n.C = Block(l...)
+		if n.B != nil && n.B.K != KIdent && !g.o.CatchParamSeesBlock {
+			// known finding C02-catch-param-block-scope: goja keeps the catch parameter and the catch block's lexical
+			// declarations in one scope; a default / computed key in the parameter that mentions a name declared by
+			// let/const/class at the top of the block resolves to that (uninitialised) binding under dynamic scoping
+			for _, st := range l {
+				var names []string
+				switch st.K {
+				case KVar:
+					if st.S != "var" {
+						for _, d := range st.L {
+							names = BoundNames(d.A, names)
+						}
+					}
+				case KClassDecl, KFuncDecl:
+					names = append(names, st.A.S)
+				}
+				for _, nm := range names {
+					if Mentions(n.B, nm) {
+						n.B = Id(g.fresh("e"))
+						for _, bad := range BoundNames(n.B, nil) {
+							for _, st2 := range l {
+								if st2.K == KVar && st2.S != "var" {
+									for _, d := range st2.L {
+										for _, bn := range BoundNames(d.A, nil) {
+											if bn == bad {
+												n.B = Id(g.fresh("e"))
+											}
+										}
+									}
+								}
+							}
+						}
+						break
+					}
+				}
+				if n.B.K == KIdent {
+					break
+				}
+			}
+		}
 		g.pop()
 	}
 	if form != 0 {
 		g.inFinally++
+		sLoops, sSw, sLabels := g.loops, g.swtch, g.labels
+		hid := false
+		if !g.o.JumpOutOfFinally && (g.fn == nil || g.noReturn) {
+			// known finding C02-finally-nested-jump-completion: where completion values are observable (script / eval
+			// level) no break/continue leaves a finally block
+			hid = true
+			g.hidden = append(g.hidden, sLabels...) // still in scope for the "no duplicate label" early error
+			g.loops, g.swtch, g.labels = 0, 0, nil
+		}
 		n.D = g.block(1+g.r.Intn(2), depth)
+		if hid {
+			g.hidden = g.hidden[:len(g.hidden)-len(sLabels)]
+		}
+		g.loops, g.swtch, g.labels = sLoops, sSw, sLabels
 		g.inFinally--
 	}
 	return n
@@ -757,7 +843,7 @@ func (g *Gen) switchStmt(depth int) *Node {
 
 func (g *Gen) labelled(depth int) *Node {
 	name := g.pick([]string{"L1", "L2", "L3"})
-	for _, l := range g.labels {
+	for _, l := range append(append([]glabel(nil), g.labels...), g.hidden...) {
 		if l.name == name {
 			name = g.fresh("M")
 		}
@@ -772,6 +858,16 @@ func (g *Gen) labelled(depth int) *Node {
 		}
 		g.labels = g.labels[:len(g.labels)-1]
 		return Label(name, loop)
+	}
+	if !g.o.JumpOutOfFinally && (g.fn == nil || g.noReturn) {
+		// (same finding: inside a labelled block only its own label can be jumped to)
+		sLoops, sSw, sLabels := g.loops, g.swtch, g.labels
+		g.hidden = append(g.hidden, sLabels...)
+		g.loops, g.swtch, g.labels = 0, 0, []glabel{{name, false}}
+		b := g.block(1+g.r.Intn(3), depth)
+		g.hidden = g.hidden[:len(g.hidden)-len(sLabels)]
+		g.loops, g.swtch, g.labels = sLoops, sSw, sLabels
+		return Label(name, b)
 	}
 	g.labels = append(g.labels, glabel{name, false})
 	b := g.block(1+g.r.Intn(3), depth)
@@ -812,6 +908,11 @@ func (g *Gen) evalStmt(depth int) *Node {
 	g.loops, g.swtch, g.labels, g.noReturn = 0, 0, nil, true
 	if e.Has(FStrict) {
 		g.strict = true
+	}
+	sNoArgs := g.noArgs
+	defer func() { g.noArgs = sNoArgs }()
+	if g.strict || e.Has(FStrict) {
+		g.noArgs++
 	}
 	if e.Has(FIndirect) {
 		// global scope, sloppy unless it has its own directive
@@ -952,4 +1053,33 @@ func (g *Gen) assignPattern(d int) *Node {
 		p.L = append(p.L, e)
 	}
 	return p
+}
+
+func dropThrowingDecls(l []*Node) []*Node {
+	var out []*Node
+	for _, st := range l {
+		t := st
+		for t.K == KLabel {
+			t = t.A
+		}
+		switch t.K {
+		case KClassDecl:
+			continue
+		case KVar:
+			hasInit := false
+			for _, d := range t.L {
+				if d.B != nil {
+					hasInit = true
+				}
+			}
+			if hasInit {
+				out = append(out, ExprStmt(Num(0)))
+				continue
+			}
+		case KBlock:
+			t.L = dropThrowingDecls(t.L)
+		}
+		out = append(out, st)
+	}
+	return out
 }
